@@ -1,4 +1,4 @@
 SPECIFICATION Spec
-CONSTANT Tier = "quick"
+CONSTANT Tier = "thorough"
 INVARIANT Emit
 CHECK_DEADLOCK FALSE
